@@ -233,6 +233,68 @@ theorem C15_decode_encode_covered (f : OdsFeatures) (hf : f.rowRuns = false) (d 
   rw [hrows, odsRowsOf_congr (fun r => mapChildren coverCells (encodeRow f r 1)) (fun r => encodeRow f r 1) _
     (fun r _ => odsRow_cover_encodeRow f r 1), odsRowsOf_encoded f _ hsmall hcells]
 
+theorem tableRowsIn_single : ∀ rows : List Xml, (∀ r ∈ rows, tableRowsOf r = [r]) → tableRowsIn rows = rows
+  | [], _ => tableRowsIn_nil
+  | r :: rest, h => by
+    rw [tableRowsIn_cons, h r (by simp), tableRowsIn_single rest (fun x hx => h x (by simp [hx]))]; rfl
+
+/-- rows of any kind wrapped into header rows, outline groups and plain row groups are found in document order -/
+theorem tableRowsIn_groupRows_any (rows : List Xml) (h : ∀ r ∈ rows, tableRowsOf r = [r]) : tableRowsIn (groupRows rows) = rows := by
+  match rows, h with
+  | [], _ => unfold groupRows; exact tableRowsIn_nil
+  | [a], h => exact tableRowsIn_single [a] h
+  | [a, b], h => exact tableRowsIn_single [a, b] h
+  | a :: b :: c :: rest, h =>
+    have hrest := tableRowsIn_single rest (fun x hx => h x (by simp [hx]))
+    unfold groupRows
+    rw [tableRowsIn_cons, tableRowsIn_cons, tableRowsIn_cons, tableRowsIn_nil, tableRowsOf_header, tableRowsOf_group, tableRowsOf_plain,
+      tableRowsIn_cons, tableRowsIn_nil, tableRowsIn_cons, tableRowsIn_cons, tableRowsIn_nil, tableRowsOf_group, tableRowsIn_cons, tableRowsIn_nil,
+      h a (by simp), h b (by simp), h c (by simp), hrest]
+    simp only [List.append_nil, List.cons_append, List.nil_append]
+
+theorem tables_of_regroup_coverDoc (f : OdsFeatures) (d : OdsDoc) :
+    (((regroupDoc (coverDoc (encodeDoc f d))).childrenTagged "office:body").flatMap (·.childrenTagged "office:spreadsheet")).flatMap
+      (·.childrenTagged "table:table") =
+      d.zipIdx.map (fun (p : List (List Str) × Nat) =>
+        mapChildren groupRows (mapChildren (List.map (mapChildren coverCells)) (encodeSheet f ("Sheet" ++ toString (p.2 + 1)) p.1))) := by
+  unfold regroupDoc coverDoc encodeDoc
+  simp only [mapChildren, Xml.childrenTagged, Xml.children, Xml.tag, List.map_cons, List.map_nil, List.filter_cons, beq_self_eq_true, if_true,
+    List.filter_nil, List.flatMap_cons, List.flatMap_nil, List.append_nil, List.map_map]
+  exact filter_tag_map (fun (p : List (List Str) × Nat) => mapChildren groupRows (mapChildren (List.map (mapChildren coverCells)) (encodeSheet f ("Sheet" ++ toString (p.2 + 1)) p.1)))
+    "table:table" d.zipIdx (fun a => by rw [mapChildren_tag, mapChildren_tag]; rfl)
+
+/-- **decode ∘ encode with both**: covered cells in rows that sit in row containers -/
+theorem C15_decode_encode_grouped_covered (f : OdsFeatures) (hf : f.rowRuns = false) (d : OdsDoc) (k : Nat) (hk1 : 1 ≤ k) (hk2 : k ≤ d.length)
+    (hsmall : ∀ r ∈ d[k - 1]'(by omega), r.length < 10 ^ maxStrDigits)
+    (hcells : ∀ r ∈ d[k - 1]'(by omega), ∀ t ∈ r, t.length < 10 ^ maxStrDigits) :
+    odsRows (some (regroupDoc (coverDoc (encodeDoc f d)))) k = .rows ((d[k - 1]'(by omega)).map (·.map some)) := by
+  unfold odsRows
+  simp only [tables_of_regroup_coverDoc, List.length_map, List.length_zipIdx]
+  have h1 : ¬ (d.length < k ∨ k < 1) := by omega
+  simp only [Bool.or_eq_true, decide_eq_true_eq, h1, if_false]
+  have hget : (d.zipIdx.map (fun (p : List (List Str) × Nat) =>
+        mapChildren groupRows (mapChildren (List.map (mapChildren coverCells)) (encodeSheet f ("Sheet" ++ toString (p.2 + 1)) p.1))))[k - 1]? =
+      some (mapChildren groupRows (mapChildren (List.map (mapChildren coverCells)) (encodeSheet f ("Sheet" ++ toString (k - 1 + 1)) (d[k - 1]'(by omega))))) := by
+    rw [List.getElem?_map, List.getElem?_zipIdx]
+    have : d[k - 1]? = some (d[k - 1]'(by omega)) := List.getElem?_eq_getElem (by omega)
+    simp [this]
+  rw [hget]
+  simp only []
+  have hrows : tableRowsIn (mapChildren groupRows (mapChildren (List.map (mapChildren coverCells)) (encodeSheet f ("Sheet" ++ toString (k - 1 + 1)) (d[k - 1]'(by omega))))).children =
+      (d[k - 1]'(by omega)).map (fun r => mapChildren coverCells (encodeRow f r 1)) := by
+    rw [mapChildren_children, mapChildren_children]
+    unfold encodeSheet Xml.children
+    simp only [hf, Bool.false_eq_true, if_false, List.map_map]
+    apply tableRowsIn_groupRows_any
+    intro r hr
+    simp only [List.mem_map, Function.comp] at hr
+    obtain ⟨row, _, rfl⟩ := hr
+    unfold encodeRow mapChildren
+    rw [tableRowsOf]
+    simp
+  rw [hrows, odsRowsOf_congr (fun r => mapChildren coverCells (encodeRow f r 1)) (fun r => encodeRow f r 1) _
+    (fun r _ => odsRow_cover_encodeRow f r 1), odsRowsOf_encoded f _ hsmall hcells]
+
 /-- Requesting a sheet the document does not have fails with a data-format error, also when the rows of the document sit in row
 containers or store covered cells. -/
 theorem C15_missing_sheet_grouped_covered (f : OdsFeatures) (d : OdsDoc) (k : Nat) (h : d.length < k) :
